@@ -193,6 +193,10 @@ func (r *rdbdriver) GetLocationByMap(ipnet *net.IPNet, mapID []byte, context Con
 	if len(foundVal) == 0 {
 		return nil, 0, nil // consistent with the return at the end of cdbdriver.go:/GetLocationByMap
 	}
+	if len(foundKey) != len(fullKey) || !bytes.Equal(foundKey[:6], fullKey[:6]) {
+		// the preceding key is not a range point of this map (another map's, or not a range point at all)
+		return nil, 0, nil
+	}
 	if len(foundVal) < 4 {
 		err = fmt.Errorf("short value: length %d, value %v, map %v", len(foundVal), foundVal, mapID)
 		return nil, 0, err
